@@ -54,9 +54,15 @@ WARM = ["warm", "humid", "monsoon", "hot", "arid"]
 ALL_REGIMES = list(W.REGIMES)
 
 
+def usable_crops():
+    """Built-in crops that define a dry-matter fraction (the four that do not - defect D8 -
+    divide by zero in the yield calculation and are exercised by C05/C06/C16 only)."""
+    return [c for c, v in common.crop_catalogue().items() if v.get("YldWC")]
+
+
 def crop_spec(rng, name=None, planting=None, flags=False, harvest_early=False, pool=None):
     cat = common.crop_catalogue()
-    name = name or pick(rng, pool or list(cat))
+    name = name or pick(rng, pool or usable_crops())
     if planting is None:
         m = int(rng.integers(1, 13))
         dd = int(rng.integers(1, 29))
@@ -352,15 +358,20 @@ def window(rng, crop, seasons=(1, 3), pre=(0, 0, 5, 40), year_range=(1985, 2015)
     elif shape == "anniv":
         end = add_years(p0, ns) + dt.timedelta(days=int(pick(rng, [-1, 0, 1])))
     elif shape == "feb29":
-        end = last_p + dt.timedelta(days=L + 60)
-        yy = end.year
-        while not (yy % 4 == 0 and (yy % 100 != 0 or yy % 400 == 0)):
+        floor_ = last_p + dt.timedelta(days=L + 40)
+        yy = floor_.year
+        while not (yy % 4 == 0 and (yy % 100 != 0 or yy % 400 == 0)) or dt.date(yy, 2, 28) < floor_:
             yy += 1
         end = dt.date(yy, 2, 28)  # 29 Feb as an end date is D11; generated by C16 only
     else:
         end = last_p + dt.timedelta(days=L + int(rng.integers(120, 400)))
     if end <= start + dt.timedelta(days=2):
         end = start + dt.timedelta(days=10)
+    # A season that may span New Year is only scheduled by the model when its harvest year
+    # is inside the window; a window that ends in the planting year of such a crop contains
+    # no schedulable season (defect D12, exercised by C16's edge class only).
+    if end.year == p0.year and (p0 + dt.timedelta(days=L + 65)).year > p0.year:
+        end = dt.date(p0.year + 1, 1, int(rng.integers(2, 29)))
     if file_span is not None and end > file_span[1]:
         end = file_span[1]
     return start, end, p0
